@@ -202,16 +202,28 @@ func refersTo(repo *repository, iter descIter, digest ociregistry.Digest) (found
 			if b == nil {
 				break
 			}
-			// Use the media type that the manifest is stored (and served) with
-			// rather than the one claimed by the referring descriptor.
-			miter, err := manifestReferences(b.mediaType, b.data)
-			if err != nil {
-				retErr = err
-				return false
+			// Follow the references implied by the media type that the manifest is
+			// stored (and served) with and also, if different, by the one
+			// claimed by the referring descriptor (for a tag, that's the
+			// type that the manifest had when it was tagged).
+			mediaTypes := []string{b.mediaType}
+			if info.desc.MediaType != b.mediaType {
+				mediaTypes = append(mediaTypes, info.desc.MediaType)
 			}
-			found, retErr = refersTo(repo, miter, digest)
-			if found || retErr != nil {
-				return false
+			for i, mediaType := range mediaTypes {
+				miter, err := manifestReferences(mediaType, b.data)
+				if err != nil {
+					if i > 0 {
+						// The content doesn't have to make sense as the claimed type.
+						continue
+					}
+					retErr = err
+					return false
+				}
+				found, retErr = refersTo(repo, miter, digest)
+				if found || retErr != nil {
+					return false
+				}
 			}
 		}
 		return true
